@@ -341,7 +341,7 @@ PROPS["C18"] = dict(
     explanation="Fault sequences are enumerated, not sampled: the seam answers ENOENT for the chosen paths and removes them from directory "
                 "listings (a directory hides its subtree). Every faulted load must fail cleanly or give a well-formed topology with no "
                 "assertion, signal, hang or sanitizer report.",
-    bounds={"quick": "base: default + 4 uniform filters + 6 single flags; faults: bound 1 on snapshots with at most 2500 consulted paths, under the default configuration and with every type kept",
+    bounds={"quick": "base: default + 4 uniform filters + 6 single flags + 9 single (type, KEEP_NONE) deviations; faults: bound 1 on snapshots with at most 2500 consulted paths, under the default configuration and with every type kept",
             "thorough": "base: additionally flag pairs and 2 filter+flag combinations; faults: bound 1 on every snapshot under both configurations, bound 2 under sys/devices/system when at most 200 such paths"},
     assumptions=COMMON_ASSUMPTIONS + ["a removal is modelled as ENOENT for the path and everything below it; short reads and EIO are not injected",
                                       "numbered directories (cpu12, node3, index0) are not removed (the property's alphabet)",
